@@ -1,5 +1,5 @@
 (* C02 - session lockstep: each call returns exactly the replies to its own commands. *)
-From LibFtp Require Import Bytes Decimal Reply Endpoint Ascii DataConn DataConn_Proofs Client Client_Proofs Login_Proofs Transfer_Proofs Transfer_More Modes_Proofs Ctl_Proofs History_Proofs History2_Proofs Session_Proofs.
+From LibFtp Require Import Bytes Decimal Reply Endpoint Ascii DataConn DataConn_Proofs Client Client_Proofs Login_Proofs Transfer_Proofs Transfer_More Modes_Proofs Ctl_Proofs History_Proofs History2_Proofs Session_Proofs Returns_Global.
 Local Open Scope N_scope.
 
 (* The unit of lockstep: from a state in which nothing is unread or pending, "send one command, receive its reply"
@@ -224,3 +224,21 @@ Theorem C02_whole_session : forall w0 h p s srest g cs rss xss rq xq,
   w_backlog w' = [] /\ w_pending w' = [].
 Proof. exact whole_session. Qed.
 Print Assumptions C02_whole_session.
+
+(* ------------------------------------------------------------------ every call, every state, every server *)
+(* [recvd tr]: the replies read from the control connection in the events tr, in order. A call that returns, returns what
+   it read: connect, login, rename, transfers and listings ALL the replies read during the call, in that order - none
+   swallowed, none invented, none repeated; the single-reply calls and logout the last reply read; disconnect the reply
+   to QUIT or nothing ([retmatch]) *)
+Theorem C02_call_returns_what_it_read : forall a w,
+  exists tr, w_trace (snd (step w a)) = w_trace w ++ tr /\
+    match fst (step w a) with OReturn v => retmatch v (recvd tr) | _ => True end.
+Proof. exact step_returns_what_it_read. Qed.
+Print Assumptions C02_call_returns_what_it_read.
+
+Example C02_returns_example :
+  let w0 := init_world (mkConfig Passive true TBinary false false) returns_script in
+  let '(o, w) := step w0 (AConnect [104%N] 21%N (Some ([117%N], [112%N]))) in
+  o = OReturn (RvReplies [mkReply 120 []; mkReply 220 []; mkReply 331 []; mkReply 230 []; mkReply 200 []]) /\
+  recvd (w_trace w) = [mkReply 120 []; mkReply 220 []; mkReply 331 []; mkReply 230 []; mkReply 200 []].
+Proof. exact returns_example. Qed.
